@@ -5,23 +5,26 @@ PROP = dict(
                  env=dict(quick=dict(VERIF_CASES=12), thorough=dict(VERIF_CASES=300))),
         ],
         rule="case = one generated scenario (1-5 vaults on two extended pairs with a draw-down fee, optional close of the newest / a random vault, "
-             "0-4 lockers with optional close, collector lookup + auction mapping, with or without the secondary asset registered as genesis token, "
+             "0-4 lockers with optional close, collector lookup + auction mapping, with or without the secondary asset registered as genesis token "
+             "(case 0 forces every feature on; case 1 is the regression of the repaired C20-F1 / C20-F12: net fees collected, lockers, secondary asset NOT a genesis token), "
              "liquidity pair/pool/orders/pending deposit/queued farmer, esm trigger params + kill switch, rewards whitelists, liquidation begin-blocker "
              "sweep) -> ExportGenesis of all 14 DeFi modules -> JSON -> InitGenesis into emptied module stores on a branch of the same chain -> "
              "per (module, prefix) dump comparison + 15-30 continuation steps on both branches; evaluations = prefix comparisons + import calls + "
              "continuation steps; non-trivial = at least 20 populated (module, prefix) pairs compared and at least 10 continuation steps; "
              "distinct by the scenario parameters",
         modelled=["store keys and values as opaque codes (60-bit digests); ids = trailing 8 bytes of the key",
-                  "InitGenesis success path; setters that can return an error only mark the prefixes they (and everything after an aborting one) feed as at risk",
+                  "InitGenesis success path; setters that can return an error on a condition over OTHER state only mark the prefixes they (and everything after an aborting one) feed as at risk; "
+                  "setters that reject on a condition over the imported item alone (collector.SetNetFeeCollectedData: negative fee; recognised by the translator as guard kind 3/4) are taken on their success path",
                   "derived indexes (asset by denom/name, liquidity pair/pool/order indexes) as an abstract function of the exported records, with the consistency of the original state as a hypothesis",
                   "fresh chain = the DeFi module stores and parameter subspaces emptied on a branch of the populated chain (bank, auth, staking state identical by construction)"],
         assumptions=["the translator's reading of store accesses (go/types): Set/Delete/Get/Has/iterators on a KVStore with a key resolved to a declared 1-byte prefix; unresolved writes are Unrecognised rows and fail the theorem",
-                     "counters recomputed as a maximum are exact only when the collection is never deleted from and the counter was its maximum id (hypothesis of c20_counters_partial)"],
+                     "counters recomputed as a maximum are exact only when the collection is never deleted from and the counter was its maximum id (hypothesis of c20_counters_partial)",
+                     "an import setter that rejects an item on a condition over the item alone accepts every record the module's own writers stored (collector net fees: both writers of the prefix reject a negative result); checked by the behavioural run (prediction 'identical' for that prefix), not proved"],
     )
 
 MANIFEST = dict(
-    level_text="Genesis coverage of all 14 DeFi modules decided by computation over a table regenerated from the Go source on every run (store prefixes and their writers, ExportGenesis field<-getter<-prefixes read, InitGenesis setter<-fields->prefixes written, counter restore shapes, error-guarded setters) and lifted by generic lemmas: every live prefix outside 12 listed known-finding classes round-trips (init (export s) = s on it) and every id counter outside them is restored to its value; fresh-id lemma for max-restored counters. Each class has a refutation theorem. The table+model's per-prefix prediction is compared with the real ExportGenesis->JSON->InitGenesis of every module on generated states, and a continuation workload is run on both chains.",
+    level_text="Genesis coverage of all 14 DeFi modules decided by computation over a table regenerated from the Go source on every run (store prefixes and their writers, ExportGenesis field<-getter<-prefixes read, InitGenesis setter<-fields->prefixes written, counter restore shapes, error-guarded setters and whether their error depends on the item alone or on other state) and lifted by generic lemmas: every live prefix outside 11 listed known-finding classes round-trips (init (export s) = s on it) and every id counter outside them is restored to its value; fresh-id lemma for max-restored counters. Each class has a refutation theorem. The table+model's per-prefix prediction is compared with the real ExportGenesis->JSON->InitGenesis of every module on generated states, and a continuation workload is run on both chains.",
     design_ref="DESIGN.md section 4 C20",
-    level_note="Partial: 12 known-finding classes (5 reproduced on the real code and listed, 7 read from the regenerated table only: lend/auction/auctionsV2/liquidation states are not populated by the behavioural run). Trusted: Coq kernel, the translator tools/goextract/emit_genesis.go, extraction, OCaml runner, Go harness. No axioms.",
+    level_note="Partial: 11 known-finding classes (3 reproduced on the real code and listed: sweep offsets, locker id counter, vault id counter - all need a GenesisState field; 8 read from the regenerated table only: lend/auction/auctionsV2/liquidation states are not populated by the behavioural run). Two former classes are fixed (C20-F1 net-fee export, C20-F12 collector lookup import): their theorems are deleted, their witnesses are regression examples and forced harness cases. Trusted: Coq kernel, the translator tools/goextract/emit_genesis.go, extraction, OCaml runner, Go harness. No axioms.",
     technique="Translator-regenerated table + Coq decision procedure proved sound against an export/init model (vm_compute + forallb_forall) + behavioural round-trip correspondence run",
 )
